@@ -469,6 +469,19 @@ def r12_3_6(ctx, A):
             ctx.check(R6, okst and oken, 'row-range', 'a row must be the cells [stride * bucket, stride * bucket + stride): start %s end %s' % (fmt(st)[:60], fmt(en)[:60]), fn=e)
         rej = [p for p in explore(e, max_visits=1) if p.end == 'return' and p.ret()[0] == 'agg' and p.ret()[1].endswith('::Rejected')]
         ctx.check(R6, all(any(is_call(d[2], '::is_empty') and d[3] == 1 for d in p.decisions) for p in rej), 'rejected-only-when-empty', 'the cache may refuse a node only when it has no cells at all', fn=e)
+        # ... and nowhere else in the registry: a row lookup that refuses a node because its row is full never records it, so a node met
+        # three times is written three times although nothing was evicted
+        for g in lib.fn_list:
+            if g.path == e.path or not g.path.startswith('raw::registry::') or g.from_expansion:
+                continue
+            for q in explore(g, max_visits=1, havoc=True, limit=400):
+                if q.end == 'return' and q.ret()[0] == 'agg' and q.ret()[1].endswith('::Rejected'):
+                    okq = any((is_call(d[2], '::is_empty') and d[3] == 1) or (d[2][0] == 'bin' and d[2][1] == 'Eq' and d[3] == 1 and ('const', 0) in d[2][2:] and any(is_call(x, '::len') for x in d[2][2:])) for d in q.decisions) \
+                        or any(isinstance(d[3], int) and d[3] == 0 and is_call(d[2], '::len') for d in q.decisions)
+                    ctx.check(R6, okq, 'rejected-only-when-empty:' + g.path, '%s refuses a node although the row has cells (%s): the node is never recorded and every later occurrence is written again' % (
+                        g.path.rsplit('::', 1)[-1], fmt(q.decisions[-1][2])[:60] if q.decisions else ''), fn=g)
+                    if not okq:
+                        break
 
 
 def r12_5(ctx):
